@@ -9,6 +9,7 @@
                          _flush_queue.get_nowait() in the drain loop    (LFNowait)
                          _get_app_loop()                                (LFChoose)
                          _write_and_flush(loop, text)                   (LFDeliver)
+                           (closed loop: RuntimeError caught, text written directly)
      the application   : run_async entered (set_is_running/set_loop/set_app, first _redraw)   (LAppStart)
                          future set: done-render, _is_running = False   (LAppExit)
                          run_async left: app_session.app = None         (LAppStop)
@@ -50,7 +51,7 @@ Inductive fstate :=
 | FDrained (acc : text) (dn : bool)                  (* queue seen empty, at _get_app_loop() *)
 | FChosen (acc : text) (dn : bool) (path : option nat) (* at _write_and_flush(loop, text) *)
 | FExit                                              (* returned *)
-| FCrash.                                            (* died with an exception *)
+| FCrash.                                            (* died with an exception (unreachable: C20_flush_thread_never_dies) *)
 
 (* what the terminal sees.  EWrite carries app._is_running and
    app._running_in_terminal at the moment of the write. *)
@@ -61,7 +62,8 @@ Record sec := mksec { s_prev : option nat; s_own : nat; s_pay : pay }.
 
 Record proxy := mkpx { buf : text; queue : list item; fth : fstate; handed : list text }.
 Record env := mkenv { app : bool; running : bool; lid : nat; lclosed : bool;
-                      loopq : list text; ctx : bool }.
+                      loopq : list text;
+                      ctx : bool  (* which session the rig created the proxy in; no step reads it *) }.
 Record chain := mkch { nextf : nat; lastf : option nat; donef : list nat;
                        waitq : list sec; active : option nat; started : list nat }.
 Record st := mkst { px : proxy; en : env; ch : chain; out : list ev; lost : list text }.
@@ -172,8 +174,11 @@ Definition step (s : st) (l : label) : st :=
           if Nat.eqb k (lid e) && negb (lclosed e)
           then mkst (set_fth p (after_batch dn) (handed p ++ [acc])) (set_loopq e (loopq e ++ [acc])) c
                     (out s) (lost s)
-          else (* loop.call_soon_threadsafe on a closed loop raises RuntimeError *)
-               mkst (set_fth p FCrash (handed p ++ [acc])) e c (out s) (lost s ++ [acc])
+          else (* loop.call_soon_threadsafe on a closed loop raises RuntimeError, which is
+                  caught: "there is no prompt anymore, write directly" *)
+               mkst (set_fth p (after_batch dn) (handed p ++ [acc])) e c
+                    (out s ++ [EWrite acc (running e) (match active c with Some _ => true | None => false end)])
+                    (lost s)
       | _ => s
       end
   | LAppStart =>
@@ -199,8 +204,11 @@ Definition step (s : st) (l : label) : st :=
       match loopq e with
       | [] => s
       | t :: q =>
-          (* write_and_flush_in_loop -> run_in_terminal -> in_terminal *)
-          if app e && ctx e && running e
+          (* write_and_flush_in_loop (run in a copy of the proxy creator's context, so it
+             sees the application of the proxy's own session) -> run_in_terminal ->
+             in_terminal: written directly only when there is no application, or it is
+             no longer running AND no earlier section is in progress or waiting *)
+          if app e && (running e || negb (fdone c (lastf c)))
           then let (c', o') := submit (running e) (PWrite t) c (out s) in
                mkst p (set_loopq e q) c' o' (lost s)
           else mkst p (set_loopq e q) c
@@ -299,7 +307,7 @@ Definition brk_step (m : option bool) (e : ev) : option bool :=
       match e with
       | EErase => Some true
       | ERender => Some false
-      | EWrite _ _ _ => if erased then Some true else None
+      | EWrite _ run _ => if erased || negb run then Some erased else None
       end
   end.
 Definition brk_run (l : list ev) : option bool := fold_left brk_step l (Some false).
@@ -309,6 +317,9 @@ Definition ev_ok (e : ev) : bool :=
 
 Definition no_lifecycle (l : label) : bool :=
   match l with LAppStart | LAppExit | LAppStop | LLoopClose => false | _ => true end.
+(* the application, once started, is not stopped or restarted (it may exit) *)
+Definition app_alive (l : label) : bool :=
+  match l with LAppStart | LAppStop | LLoopClose => false | _ => true end.
 
 (* ---- wire format ---- *)
 Definition sx_nat (n : nat) : sx := A (Z.of_nat n).
